@@ -1205,6 +1205,7 @@ func raceReports() {
 func main() {
 	r = lib.Start("C14", "exploration")
 	r.Rule = "executions: free-running histories (in-process under -race, and cross-process), every interleaving of the 4 step boundaries of 2 writers (x fresh/pre-existing entry) and sampled ones of 3 writers over 1-2 URLs with a read from 2-3 observers at every boundary, crash points by hook x boundary, by strace at the n-th file-system syscall (n enumerated until the writer survives), by timer inside multi-MiB writes; distinct by (history id) / (schedule, step, observer) / (crash point); all are non-trivial"
+	r.Rule += "; plus large base+delta entries across processes, stores under a done context, the same bundle stored again (A,B,A over one and two cache values), URLs differing in query / user info / escape digits, faults after the cache directory was cleaned away"
 	r.Assumptions = []string{"POSIX rename atomicity of the sandbox file system", "'crash' = process kill, not power loss (as the property says)",
 		"stored bundles never expire during the run (next-update +20 years), so a read after a completed write must not miss",
 		"the statement's 'at every instant ... yields' gives each URL one current value per instant, i.e. an atomic register (porcupine model); freshness is also checked separately as stated"}
